@@ -37,6 +37,20 @@ def _repo_modules(prefix):
 def _fingerprint(prefix):
     """name -> cheap value of every module-level / class-level attribute of the repository's modules that can carry state"""
     fp = {}
+    # interpreter-wide services a call might reconfigure for a moment (every other thread of the process sees that)
+    import warnings
+    import logging
+    fp["interpreter.warnings.filters"] = (id(warnings.filters), len(warnings.filters), getattr(warnings, "_filters_version", 0))
+    fp["interpreter.warnings.showwarning"] = id(warnings.showwarning)
+    fp["interpreter.warnings._showwarnmsg"] = id(getattr(warnings, "_showwarnmsg", None))
+    fp["interpreter.cwd"] = os.getcwd()
+    fp["interpreter.recursionlimit"] = sys.getrecursionlimit()
+    fp["interpreter.switchinterval"] = sys.getswitchinterval()
+    fp["interpreter.stdout"] = id(sys.stdout)
+    fp["interpreter.stderr"] = id(sys.stderr)
+    fp["interpreter.environ"] = len(os.environ)
+    fp["interpreter.logging.disable"] = logging.root.manager.disable
+    fp["interpreter.logging.root.level"] = logging.root.level
     for mname, m in _repo_modules(prefix):
         for k, v in list(vars(m).items()):
             if k.startswith("__"):
@@ -101,6 +115,42 @@ def probe(spec, prefix):
     from vf import norm  # noqa: F401  (imports the repository; the fingerprint needs its modules)
     import explorerscript.ssb_converting.ssb_decompiler, explorerscript.ssb_converting.ssb_compiler  # noqa: F401,E401
     state["fp"] = _fingerprint(prefix)
+    # taps on the standard entry points that reconfigure something interpreter-wide (some of it is kept in C and cannot be
+    # fingerprinted, e.g. the warning filters): the repository function that calls one of them is a writer site too
+    import gc, locale, logging, random as _random, signal, warnings  # noqa: E401
+
+    def tap(holder, attr, label):
+        orig = getattr(holder, attr, None)
+        if orig is None:
+            return
+
+        def wrapper(*a, **k):
+            f = sys._getframe(1)
+            for _ in range(6):
+                if f is None:
+                    break
+                c = f.f_code
+                if c.co_filename.startswith(prefix) and c.co_qualname != "<module>":
+                    state["writers"].setdefault((c.co_filename, c.co_qualname, c.co_firstlineno), set()).add("interpreter." + label)
+                    break
+                f = f.f_back
+            return orig(*a, **k)
+
+        try:
+            setattr(holder, attr, wrapper)
+        except (TypeError, AttributeError):
+            pass
+
+    for holder, attr, label in ((warnings.catch_warnings, "__enter__", "warnings.catch_warnings"), (warnings, "simplefilter", "warnings.simplefilter"),
+                                (warnings, "filterwarnings", "warnings.filterwarnings"), (warnings, "resetwarnings", "warnings.resetwarnings"),
+                                (os, "chdir", "os.chdir"), (os, "putenv", "os.putenv"), (os, "umask", "os.umask"),
+                                (sys, "setrecursionlimit", "sys.setrecursionlimit"), (sys, "setswitchinterval", "sys.setswitchinterval"),
+                                (sys, "settrace", "sys.settrace"), (sys, "setprofile", "sys.setprofile"),
+                                (locale, "setlocale", "locale.setlocale"), (logging, "disable", "logging.disable"),
+                                (logging, "basicConfig", "logging.basicConfig"), (signal, "signal", "signal.signal"),
+                                (gc, "disable", "gc.disable"), (gc, "enable", "gc.enable"), (gc, "freeze", "gc.freeze"),
+                                (_random, "seed", "random.seed")):
+        tap(holder, attr, label)
     m.use_tool_id(TOOL, "vf-cold-probe")
     m.register_callback(TOOL, m.events.PY_START, on_start)
     m.register_callback(TOOL, m.events.PY_RETURN, on_return)
@@ -196,6 +246,12 @@ def pause(spec, prefix):
     reached = paused.is_set()
     b_blocked = False
     if reached:
+        # the rest of the application goes on while A is held: a warning and a log line from this (third) thread
+        import warnings
+        import logging
+        warnings.warn("a warning of another thread", DeprecationWarning)
+        warnings.warn("a warning of another thread", RuntimeWarning)
+        logging.getLogger("some.other.part.of.the.application").debug("a log line of another thread")
         tb.start()
         tb.join(spec.get("b_wait", 2))
         b_blocked = tb.is_alive()  # B waits for something A holds: this interleaving does not exist, let A go on
